@@ -56,7 +56,7 @@ def run(ctx: Ctx):
     ctx.extra["mypy_typed_expressions"] = typed.n_typed
     reach = eff.reachable([ENTRY])
     # hashing edges (set/dict membership) and import-time builders are part of what runs
-    extra = [q for q in eff.funcs if q.split(".")[-1] in ("__hash__", "__eq__") and q.startswith("models.Token")]
+    extra = [q for q in eff.funcs if q.split(".")[-1] in ("__hash__", "__eq__") and q.startswith("models.")]
     build = [q for q in eff.funcs if q.startswith("tokenizers._populate_reporter_extractors") or q.startswith("tokenizers.HyperscanTokenizer.hyperscan_db")]
     scope = sorted(set(reach) | set(eff.reachable(extra)) | set(build))
     ctx.extra["functions_in_scope"] = len(scope)
